@@ -54,7 +54,7 @@ func init() {
 					res.Require(res.OutcomeCount(name, k) > 0, "%s: outcome %s never occurred", name, k)
 				}
 			}
-			res.Coverage["alphabet"] = "AddValidator(o∈{o1,o2,o3}, k∈{k1,k2,k3}) (all 9, so a key under another operator occurs); RemoveValidator(o); UpdateParams(MaxValidators∈{1,2,3} | HistoricalEntries∈{0,1,2}); NextBlock (= real EndBlocker, CometBFT ValidatorSet.UpdateWithChangeSet, height+1, real BeginBlocker); genesis ∈ {{o1k1},{o1k1,o2k2}, the latter with its operator addresses spelled in upper-case bech32} through the real InitGenesis; a fourth configuration runs on a chain whose consensus parameters list secp256k1 next to ed25519, with keys k1 (ed25519), s2, s3 (secp256k1)"
+			res.Coverage["alphabet"] = "AddValidator(o∈{o1,o2,o3}, k∈{k1,k2,k3}) (all 9, so a key under another operator occurs); RemoveValidator(o); UpdateParams(MaxValidators∈{1,2,3} | HistoricalEntries∈{0,1,2}); NextBlock (= real EndBlocker, CometBFT ValidatorSet.UpdateWithChangeSet, height+1, real BeginBlocker); genesis ∈ {{o1k1},{o1k1,o2k2}, the latter with its operator addresses spelled in upper-case bech32} through the real InitGenesis; a fourth configuration runs on a chain whose consensus parameters list secp256k1 next to ed25519, with keys k1 (ed25519), s2, s3 (secp256k1) and a third operator whose address is 32 bytes long"
 			res.Coverage["oracle"] = "at every block boundary: EndBlock/BeginBlock neither fail nor panic; batch has no key twice, no removal of an unknown key, no negative power and is accepted by a real CometBFT ValidatorSet mirror; mirror = positive-power validators = LastValidatorPowers; bonded ≤ MaxValidators; removed validators are gone from Query/Validators; historical record at the new height exists iff HistoricalEntries>0, lists exactly the bonded set, and (constant retention) heights ⊆ (h-entries,h]; in every state operator and consensus-key indexes are one-to-one with the stored validators (raw store and queries)"
 			res.Assumptions = []string{"removing the last bonded validator is classified separately (engine-rejected-empty-set): the property's acceptance clause lists three conditions and an empty set is not among them", fmt.Sprintf("3 operators, 3 keys, depth %d", pick(rc, 6, 8))}
 			return res
